@@ -357,7 +357,7 @@ def rule_lean(form_line):
 
 VEX_REG_CLASSES = {"rvm": (0x72, 0x75), "rm": (0x68, 0x6B), "rvmi": (0x7A, 0x7C), "rmi": (0x6F, 0x71),
                    # legacy space: ExtRm, ExtRm_P, X86Rm, X86Rm_NoSize ([reg, rm]); X86Mr, X86Mr_NoSize ([rm, reg]); ExtRmi, ExtRmi_P ([reg, rm, imm8])
-                   "lrm": (0x4A, 0x4D, 0x14, 0x16, 0x21), "lmr": (0x17, 0x18), "lrmi": (0x52, 0x53), "lop": (0x01,),
+                   "lrm": (0x4A, 0x4D, 0x14, 0x16, 0x21, 0x56), "lmr": (0x17, 0x18, 0x56), "lrmi": (0x52, 0x53), "lop": (0x01,),
                    # X86Arith, X86Test, register-register: the class emits the [rm, reg] form; 8-bit operands in both kinds (gpb, gpbhi)
                    "larith": (0x19, 0x3D),
                    # X86Rot: shift / rotate a register by an imm8 ([rm, imm8] with an opcode-extension digit), all operand sizes
@@ -377,9 +377,9 @@ VEX_REG_CLASSES = {"rvm": (0x72, 0x75), "rm": (0x68, 0x6B), "rvmi": (0x7A, 0x7C)
                    # X86Jcc / X86Jmp / X86Call to a bound label: rel8 and rel32 forms
                    "lrel": (0x26, 0x28, 0x1C),
                    # X86Arith `op r16/r32/r64, imm` (81 /d iw|id, 83 /d ib)
-                   "larithimm": (0x19,), "laccimm": (0x19, 0x3D), "lrotx": (0x37,)}
+                   "larithimm": (0x19,), "laccimm": (0x19, 0x3D), "lrotx": (0x37,), "lm": (0x0E, 0x38)}
 SHAPE_ROLES = {"rvm": ["reg", "vvvv", "rm"], "rm": ["reg", "rm"], "rvmi": ["reg", "vvvv", "rm", "imm"], "rmi": ["reg", "rm", "imm"],
-               "lrm": ["reg", "rm"], "lmr": ["rm", "reg"], "lrmi": ["reg", "rm", "imm"], "lop": None, "larith": ["rm", "reg"], "lrot": ["rm", "imm"], "larithi8": ["rm", "imm"], "lopreg": ["opc"], "larithrm": ["reg", "rm"], "lmov": ["rm", "reg"], "lmovrm": ["reg", "rm"], "mr": ["rm", "reg"], "mri": ["rm", "reg", "imm"], "llea": ["reg", "rm"], "lrel": ["rel"], "larithimm": ["rm", "imm"], "laccimm": ["none", "imm"], "lrotx": ["rm", "none"]}
+               "lrm": ["reg", "rm"], "lmr": ["rm", "reg"], "lrmi": ["reg", "rm", "imm"], "lop": None, "larith": ["rm", "reg"], "lrot": ["rm", "imm"], "larithi8": ["rm", "imm"], "lopreg": ["opc"], "larithrm": ["reg", "rm"], "lmov": ["rm", "reg"], "lmovrm": ["reg", "rm"], "mr": ["rm", "reg"], "mri": ["rm", "reg", "imm"], "llea": ["reg", "rm"], "lrel": ["rel"], "larithimm": ["rm", "imm"], "laccimm": ["none", "imm"], "lrotx": ["rm", "none"], "lm": ["rm"]}
 
 
 def class_rows_lean(kept, rows, chunk=96):
@@ -421,7 +421,7 @@ def class_rows_lean(kept, rows, chunk=96):
                     if o["imm"] != 8 and shape not in ("larithimm", "laccimm"):
                         okf = False
                     continue
-                if shape == "llea" and not o["reg"]:
+                if shape in ("llea", "lm") and not o["reg"]:
                     continue
                 if role == "rel":
                     continue
@@ -434,7 +434,7 @@ def class_rows_lean(kept, rows, chunk=96):
                         break
                     kinds.append((acc,))
                     continue
-                if o["reg"] not in CLASS or (len(CLASS[o["reg"]]) != 1 and shape not in ("larith", "lrot", "larithi8", "larithrm", "lmov", "lmovrm", "larithimm", "lrotx")) or o["implicit"]:
+                if o["reg"] not in CLASS or (len(CLASS[o["reg"]]) != 1 and shape not in ("larith", "lrot", "larithi8", "larithrm", "lmov", "lmovrm", "larithimm", "lrotx", "lm")) or o["implicit"]:
                     okf = False
                     break
                 kinds.append(CLASS[o["reg"]])
